@@ -24,12 +24,12 @@ Qed.
 
 Theorem holds_C04_on_model (case : adapt_case) :
   ac_views case = fst (run_request (ac_req case) (ac_resps case)) ->
-  (forall c0, ac_req case = RCreate c0 -> wf_views (ac_resps case) = true) ->
   holds_C04 case = true.
 Proof.
-  unfold holds_C04. intros Hv Hwf. destruct (ac_req case) as [c0|id req|id] eqn:Hr; [| |reflexivity].
+  unfold holds_C04. intros Hv. destruct (ac_req case) as [c0|id req|id] eqn:Hr; [| |reflexivity].
   - rewrite Hv. apply views_ok_nth. intros i v Hn. cbn [Nat.add].
-    destruct (view_is_prefix_result_w4 c0 (ac_resps case) i v (wf_views_firstn _ i (Hwf c0 eq_refl)) Hn) as [x [-> Hx]].
+    destruct (wf_views (firstn i (ac_resps case))) eqn:Hw; [|reflexivity]. cbn [negb orb].
+    destruct (view_is_prefix_result_w4 c0 (ac_resps case) i v Hw Hn) as [x [-> Hx]].
     exact Hx.
   - rewrite Hv. apply views_ok_nth. intros i v Hn. cbn [Nat.add].
     destruct (some_dropped None (firstn i (ac_resps case))) eqn:Hd; [reflexivity|]. cbn [orb].
